@@ -174,6 +174,10 @@ type Harness struct {
 	MaxSteps int
 	// Args overrides the materialisation of parameters (by parameter name).
 	Args map[string]func(st *State) AV
+	// InlineAll: inline module functions of every package (default: only the package of Fn).
+	InlineAll bool
+	// StopAfter ends the run (successfully) right after an effect for which it returns true.
+	StopAfter func(e Effect) bool
 }
 
 type State struct {
@@ -230,6 +234,7 @@ type Outcome struct {
 	Ret       []AV
 	Trace     []Effect
 	Undecided string // non-empty: the run left the decidable fragment
+	Stopped   bool   // the harness ended the run early (StopAfter)
 	cells     map[string]*cell
 	Steps     int
 }
@@ -447,6 +452,10 @@ func (h *Harness) RunState(w *World, st *State) (out *Outcome) {
 				out.PanicVal = p.v
 				return
 			}
+			if _, ok := r.(stopRun); ok {
+				out.Stopped = true
+				return
+			}
 			panic(r)
 		}
 	}()
@@ -473,6 +482,7 @@ func (h *Harness) RunState(w *World, st *State) (out *Outcome) {
 }
 
 type goPanic struct{ v AV }
+type stopRun struct{}
 
 // symbolic materialises a symbolic input named sym of type t.
 func (m *machine) symbolic(sym string, t types.Type) AV {
@@ -529,12 +539,16 @@ func (m *machine) defaultInput(sym string, t types.Type) AV {
 	return avOpaque{"input " + sym}
 }
 
+// symCell returns the symbolic object named sym (the pointee of a symbolic pointer, a global, a struct
+// parameter). It is registered under sym+"->" so that it cannot be confused with the location that holds
+// the pointer; its fields are registered as sym.field.
 func (m *machine) symCell(sym string, t types.Type) *cell {
-	if c, ok := m.out.cells[sym]; ok {
+	key := sym + "->"
+	if c, ok := m.out.cells[key]; ok {
 		return c
 	}
 	c := &cell{typ: t, sym: sym}
-	m.out.cells[sym] = c
+	m.out.cells[key] = c
 	return c
 }
 
@@ -551,6 +565,11 @@ func (m *machine) fieldCell(c *cell, idx int) *cell {
 	if c.fields[idx] == nil {
 		f := st.Field(idx)
 		fc := &cell{typ: f.Type()}
+		if o, ok := c.val.(avOpaque); ok {
+			fc.val, fc.have = avOpaque{o.why + "." + f.Name()}, true
+			c.fields[idx] = fc
+			return fc
+		}
 		if c.sym != "" {
 			fc.sym = c.sym + "." + f.Name()
 			if old, ok := m.out.cells[fc.sym]; ok {
@@ -598,9 +617,10 @@ func (m *machine) zero(t types.Type) AV {
 
 func (m *machine) loadCell(c *cell) AV {
 	switch c.typ.Underlying().(type) {
-	case *types.Struct:
-		return avStruct{c}
-	case *types.Array:
+	case *types.Struct, *types.Array:
+		if o, ok := c.val.(avOpaque); ok {
+			return o
+		}
 		return avStruct{c}
 	}
 	if !c.have {
@@ -619,9 +639,16 @@ func (m *machine) storeCell(c *cell, v AV) {
 	case *types.Struct, *types.Array:
 		sv, ok := v.(avStruct)
 		if !ok {
-			m.fail("store of non-struct value into struct cell")
+			// an opaque struct value (result of a non-inlined call): the whole cell becomes opaque
+			if o, isO := v.(avOpaque); isO {
+				c.val, c.fields, c.elems, c.have, c.written = o, nil, nil, true, true
+				return
+			}
+			m.fail("store of non-struct value %s into struct cell", avString(v))
 		}
+		c.val = nil
 		m.copyStruct(c, sv.c)
+		c.written = true
 		return
 	}
 	c.val = v
@@ -630,6 +657,12 @@ func (m *machine) storeCell(c *cell, v AV) {
 }
 
 func (m *machine) copyStruct(dst, src *cell) {
+	if src != nil {
+		if o, ok := src.val.(avOpaque); ok {
+			dst.val, dst.fields, dst.elems, dst.have = o, nil, nil, true
+			return
+		}
+	}
 	if src == nil {
 		dst.fields, dst.elems = nil, nil
 		return
@@ -798,7 +831,11 @@ func (m *machine) effect(name string, args []AV) {
 			return
 		}
 	}
-	m.out.Trace = append(m.out.Trace, Effect{name, args})
+	e := Effect{name, args}
+	m.out.Trace = append(m.out.Trace, e)
+	if m.h.StopAfter != nil && m.h.StopAfter(e) {
+		panic(stopRun{})
+	}
 }
 
 func (m *machine) eval(fr *frame, v ssa.Value) AV {
@@ -973,6 +1010,14 @@ func (m *machine) evalInstr(fr *frame, v ssa.Value) AV {
 				}
 				panic(goPanic{avStr{isC: true, conc: "type assertion on nil"}})
 			}
+			// asserting a non-nil symbolic interface to an interface its static type already satisfies
+			// (the nil-check go/ssa emits for interface method values) always succeeds
+			if it, isI := x.AssertedType.Underlying().(*types.Interface); isI && types.Implements(x.X.Type(), it) {
+				if x.CommaOk {
+					return avTuple{[]AV{i, avBool{true}}}
+				}
+				return i
+			}
 			m.fail("type assertion on a symbolic interface without dynamic type (%s) at %s", i.sym, m.w.pos(x.Pos()))
 		}
 		match := types.Identical(i.dyn, x.AssertedType)
@@ -1086,7 +1131,9 @@ func (m *machine) invoke(fr *frame, cc *ssa.CallCommon, args []AV, label string)
 	} else {
 		fv, ok := m.eval(fr, cc.Value).(avFunc)
 		if !ok {
-			m.fail("call of unknown function value at %s", m.w.pos(cc.Pos()))
+			label = "call:" + avString(m.eval(fr, cc.Value))
+			m.effect(label, args)
+			return opaqueResults()
 		}
 		if fv.fn != nil {
 			target, free = fv.fn, fv.bindings
@@ -1098,6 +1145,9 @@ func (m *machine) invoke(fr *frame, cc *ssa.CallCommon, args []AV, label string)
 	if target != nil {
 		name, _ := csmapMethod(cc)
 		inl := target.Blocks != nil && m.w.inModule(target) && name == "" && !m.h.NoInline[fname(target)] && !m.h.NoInline[label]
+		if inl && !m.h.InlineAll && pkgOfFn(target) != pkgOfFn(m.h.Fn) {
+			inl = false
+		}
 		if inl {
 			return m.call(target, args, free)
 		}
@@ -1494,4 +1544,16 @@ func nonEmpty(in []string) []string {
 		}
 	}
 	return out
+}
+
+func pkgOfFn(f *ssa.Function) string {
+	for g := f; g != nil; g = g.Parent() {
+		if g.Pkg != nil {
+			return g.Pkg.Pkg.Path()
+		}
+		if o := g.Origin(); o != nil && o.Pkg != nil {
+			return o.Pkg.Pkg.Path()
+		}
+	}
+	return ""
 }
